@@ -27,6 +27,21 @@ def valueResolve (name : Bytes) : Bytes :=
   else if name = symBytes "foo.bar" then symBytes "7"
   else if name = symBytes "a_1" then symBytes "1.25"
   else if name = symBytes "sp" then symBytes " 6 "
+  -- every kind of literal a resolver may answer with (hardening pass; go/cmd/c09/walk.go holds the same table)
+  else if name = symBytes "e" then symBytes "1e-2"
+  else if name = symBytes "neg" then symBytes "-3"
+  else if name = symBytes "big" then symBytes "123456789012345678901234567890"
+  else if name = symBytes "ws" then symBytes "  "
+  else if name = symBytes "str" then symBytes "abc"
+  else if name = symBytes "expr" then symBytes "22 + 2"
+  else if name = symBytes "bool" then symBytes "true"
+  else if name = symBytes "paren" then symBytes "(1)"
+  else if name = symBytes "comma" then symBytes "1,2"
+  else if name = symBytes "inf" then symBytes "Inf"
+  else if name = symBytes "max4" then symBytes "922337203685477.5807"
+  else if name = symBytes "tiny" then symBytes "0.00001"
+  else if name = symBytes "fn" then symBytes "abs(-1)"
+  else if name = symBytes "mid" then symBytes "16777217.000000001"
   else []
 
 def optSym : Option Op → String
